@@ -26,6 +26,7 @@ def fam_defects():
         ("kd_runtime_negative_step", L("vs = 0 - 1 - d0.On\nfor idx in range(3, 0, vs):\n    d1.Setting = idx\nd2.On = 1")),
         ("kd_alias_register_freed", H + "def fz(xn):\n    va = xn * 2\n    vb = va\n    d1.Setting = va\n    vc = xn + 5\n    vd = vc * 3\n    d3.Setting = vd + vc\n    return vb\n"
                                     "while True:\n    d2.Setting = fz(d0.Setting)\n    d4.Setting = fz(1)\n    yield_()\n"),
+        ("kd_stack_vs_push", H + "def fa(xa):\n    d1.Setting = xa\ndef fb(xa):\n    fa(xa)\n    fa(xa + 1)\nwhile True:\n    stack[0] = d0.Setting + 7\n    fb(2)\n    d2.Setting = stack[0]\n    yield_()\n"),
         ("kd_range_bound_reassigned", L("vn = 3\nfor idx in range(vn):\n    vn = vn - 1\n    d1.Setting = idx")),
     ]
 
